@@ -112,10 +112,12 @@ var longFamilies = []struct {
 	14: {"'", 'a', "??", "a\xc3\xa9'\\", false}, // mostly unterminated strings ending in multi-byte or stray bytes
 	15: {"`", 'a', "??", "a\xc3\xa9`\n", false},
 	16: {"\"?", '\xa9', "?", "a\xc3\xa9\"", false}, // runs of continuation bytes
+	17: {"?", '0', "e?", "0159.", true},            // zero mantissas with an exponent
+	18: {"?", '0', "?e+?", "0159.", true},
 }
 
 // LongFamilies is the number of families of H_C09long.
-const LongFamilies = 17
+const LongFamilies = 19
 
 func longSource(f, n int) string {
 	fam := longFamilies[f]
@@ -163,6 +165,25 @@ func H_C09long(f, nmax int) {
 	n := verif.Concrete(verif.IntRange(0, nmax+1))
 	CheckLexer(longSource(f, n), true)
 	verif.Cover("long-checked")
+}
+
+// lexWords are lexemes whose reading could depend on their neighbours if the lexer
+// kept context: keywords, the join-side names, signs and exponents, quotes, comments.
+var lexWords = []string{"$left", "$right", ".", "by", "in", "and", "or", "a", "1", "e5", "+", "-", "'", "//", "`", ";", "(", "=", "!", "0x", "\n"}
+
+// H_C09lex checks the lexer on every sequence of k lexemes of lexWords, each pair
+// joined directly or by one space (the token language has no context beyond the
+// longest-lexeme rule; a context-dependent lexer shows here).
+func H_C09lex(k int) {
+	src := ""
+	for i := 0; i < k; i++ {
+		if i > 0 && verif.Bool() {
+			src += " "
+		}
+		src += lexWords[verif.Concrete(verif.IntRange(0, len(lexWords)))]
+	}
+	CheckLexer(src, false)
+	verif.Cover("lexeme-sequences")
 }
 
 // approxDecimal is the value of an integer spelling computed with a handful of
